@@ -25,7 +25,7 @@ from ..core import Ctx, key_of
 from ..dep import data, full
 from ..model import AnchorMissing, dotted, norm, own_nodes
 from ..order import local_resolver, mono, order_table
-from .common import calls_named, facts_of, heap_writes, lit_compare, returns
+from .common import calls_named, facts_of, heap_writes, lit_compare, returns, maybe_true
 
 META = {
     "level": "other",
@@ -55,43 +55,44 @@ def _signed_terms(e, sign=1):
 
 
 def partial_reoffer_rule(ctx: Ctx, rid: str):
-    """available(): an occupied slot is offered again only when part of it was released (shared by C01 / C02)."""
+    """available(): an occupied slot is offered again only when part of it was released (shared by C01 / C02).
+    Stated over the must-facts at every return that can answer True: there is a clause each of whose literals says either "the slot
+    table entry is None" or "what is left of the slot is less than (or equal to) a whole slot" -- i.e. on every path to a positive
+    answer the slot is unowned, or something of it was handed back.  Any control-flow shape that establishes this is accepted
+    (`if owned and left < slot: pass / elif owned: return False`, a single guard `if owned and not left < slot: return False`, a
+    helper predicate folded back by N-inline, a local alias of the table entry)."""
     avail = ctx.repo.func("ResourceScenario.available")
+    g = cfg_of(avail)
+    facts = facts_of(avail)
     rem_names = {t.id for n in own_nodes(avail) if isinstance(n, ast.Assign) and isinstance(n.value, ast.Call)
                  and (dotted(n.value.func) or "").endswith("getAvailableSecondsInSlot") for t in n.targets if isinstance(t, ast.Name)}
-    # ---------------------------------------------------------------- R01.5 (partial-slot re-offer)
-    # a slot whose scoreboard entry is a task (not None) may be offered only when remaining < slot length
-    for n in own_nodes(avail):
-        if isinstance(n, ast.If):
-            t = norm(n.test)
-            if "scoreboard" in t and "is not None" in t:
-                chain = [n]
-                cur = n
-                while cur.orelse and len(cur.orelse) == 1 and isinstance(cur.orelse[0], ast.If):
-                    cur = cur.orelse[0]
-                    chain.append(cur)
-                # exactly: (owned and remaining < granularity) -> pass ; owned -> return False
-                passes = [c for c in chain if all(isinstance(s, ast.Pass) for s in c.body)]
-                denies = [c for c in chain if any(isinstance(s, ast.Return) and isinstance(s.value, ast.Constant) and s.value.value is False for s in c.body)]
-                ok = bool(denies)
-                for c in passes:
-                    tab = None
-                    for part in (c.test.values if isinstance(c.test, ast.BoolOp) and isinstance(c.test.op, ast.And) else [c.test]):
-                        if isinstance(part, ast.Compare):
-                            tab = order_table(part, lambda x: isinstance(x, ast.Name) and x.id in rem_names,
-                                              lambda x: "scheduleGranularity" in norm(x))
-                    # remaining == slot length means the owner's record says it uses nothing of the slot: offering it again
-                    # cannot double-book, so `<=` is as good as `<` (the ledger, not the marker, is what C01 is about)
-                    if tab is None or tab["<"] is not True or tab[">"] is not False:
-                        ok = False
-                ctx.ob(rid, f"{avail.qual}: occupied slot re-offered only after a partial release", (avail, n), ok,
-                       "occupied slot passes only when remaining < slot length, otherwise it is refused" if ok else
-                       "a slot owned by another task can be offered although nothing was released from it",
-                       key=key_of(rid, avail, None, "owned-slot"))
-                break
-    else:
-        raise AnchorMissing("available(): test of the scoreboard owner not found")
+    slotp = avail.params[1] if len(avail.params) > 1 else "sb_idx"
 
+    def lit_ok(t, p):
+        tt = t.replace('"', "'")
+        if tt == f"self.scoreboard[{slotp}] is not None":
+            return p is False
+        if tt == f"self.scoreboard[{slotp}] is None":
+            return p is True
+        e = lit_compare(t)
+        if isinstance(e, ast.Compare) and len(e.ops) == 1:
+            tab = order_table(e if p else ast.UnaryOp(op=ast.Not(), operand=e),
+                              lambda x: isinstance(x, ast.Name) and x.id in rem_names or "getAvailableSecondsInSlot" in norm(x),
+                              lambda x: "scheduleGranularity" in norm(x))
+            if tab is not None and tab["<"] is True and tab[">"] is False:
+                return True
+        return False
+    rets = [r for r in returns(avail) if maybe_true(r)]
+    if not rets:
+        raise AnchorMissing("available(): no return that can answer True")
+    for r in rets:
+        node = g.node_of(r)
+        cl = next((c for c in sorted(facts.at(node), key=lambda c: sorted(map(str, c))) if c and all(lit_ok(t, p) for (t, p) in c)), None)
+        ok = cl is not None
+        ctx.ob(rid, f"{avail.qual}: {norm(r)[:40]} -- occupied slot re-offered only after a partial release", (avail, r), ok,
+               f"on every path to this answer: {sorted(t for t, _ in cl)}" if ok else
+               "a slot owned by another task can be offered although nothing was released from it",
+               key=key_of(rid, avail, None, "owned-slot"))
 
 
 def marker_never_offered_rule(ctx: Ctx, rid: str):
@@ -102,7 +103,7 @@ def marker_never_offered_rule(ctx: Ctx, rid: str):
     fa = facts_of(avail)
     n = 0
     for r in returns(avail):
-        if not (isinstance(r.value, ast.Constant) and r.value.value is True):
+        if not maybe_true(r):
             continue
         n += 1
         node = g.node_of(r)
@@ -474,7 +475,7 @@ def run(ctx: Ctx):
     rem_names = {t.id for n in own_nodes(avail) if isinstance(n, ast.Assign) and isinstance(n.value, ast.Call)
                  and (dotted(n.value.func) or "").endswith("getAvailableSecondsInSlot") for t in n.targets if isinstance(t, ast.Name)}
     for r in returns(avail):
-        if not (isinstance(r.value, ast.Constant) and r.value.value is True):
+        if not maybe_true(r):
             continue
         node = g.node_of(r)
         found = None
